@@ -9,7 +9,7 @@ import random, os, json
 from common import *
 import gen, pipeline, model, compare, findings as F, oracle
 
-PROPS_MODULES = ["ShexerModel.Props.C01"]
+PROPS_MODULES = ["ShexerModel.Props.C01", "ShexerModel.Props.C01b"]
 GENERATED_DEPS = ["threshold_keeps", "relax_cardinality", "generalize_cardinality", "most_general_cardinality",
                   "cardinality_representation"]
 
